@@ -258,7 +258,7 @@ def _opt_q(text, flags):
     return [int(q)]
 
 
-ZONE = 2 ** 27      # a time is local quarter-seconds since BASE + ZONE * (0: no designator, 1: UTC "Z", 2: +01:00)
+ZONE = 2 ** 27      # a time is local quarter-seconds since BASE + ZONE * (0: no designator, 1: UTC "Z", 2: +01:00, 3: -05:00)
 
 
 def time_q(d, flags):
@@ -271,6 +271,8 @@ def time_q(d, flags):
                 zone = 1
             elif off == 3600:
                 zone = 2
+            elif off == -18000:
+                zone = 3
             else:
                 flags["exact"] = False
             d = d.replace(tzinfo=None)
